@@ -466,6 +466,15 @@ func (fx *fexec) scanModifies(fn *ssa.Function, inScope func(*ssa.BasicBlock) bo
 				comp, srt := vc.elemComp(vc.under(x.Type()).(*types.Slice).Elem())
 				ms.comps[comp] = srt
 				ms.fresh[comp] = true
+			case *ssa.Next:
+				// a step of a map iteration extends the set of delivered keys
+				if r, ok := x.Iter.(*ssa.Range); ok && !x.IsString {
+					if m, isMap := vc.under(r.X.Type()).(*types.Map); isMap {
+						comp := rangeComp(r)
+						ms.comps[comp] = arraySort(vc.sortOf(m.Key()), SBool)
+						ms.coarse[comp] = true
+					}
+				}
 			case *ssa.MakeMap:
 				ms.allocs = true
 				m := vc.under(x.Type()).(*types.Map)
